@@ -60,7 +60,7 @@ func (c *countCtx) Err() error {
 }
 
 type chainKey struct {
-	cfg   string
+	cfg   string // configuration id, optionally "<id>+<policy>" (chain.PolicyByName)
 	n     int
 	seed  int64
 	slots int
@@ -73,13 +73,20 @@ func steps(k chainKey) ([]*chain.Step, *chain.Chain, error) {
 	if s, ok := cache[k]; ok {
 		return s, cacheChain[k], nil
 	}
-	cfg, err := chain.ConfigByID(k.cfg)
+	cfgID, policy := k.cfg, ""
+	if i := strings.Index(k.cfg, "+"); i >= 0 {
+		cfgID, policy = k.cfg[:i], k.cfg[i+1:]
+	}
+	cfg, err := chain.ConfigByID(cfgID)
 	if err != nil {
 		return nil, nil, err
 	}
 	c, err := chain.NewChain(cfg, k.n, "mixed", k.seed)
 	if err != nil {
 		return nil, nil, err
+	}
+	if policy != "" {
+		c.Policy = chain.PolicyByName(policy)
 	}
 	s, err := c.Run(k.slots)
 	if err != nil {
@@ -196,6 +203,8 @@ func gen(o hreg.Opts, w *bufio.Writer) error {
 		{"fast@0,0,0,1", 32, 12},    // capella -> deneb
 		{"fast@1,2,3,4", 32, 40},    // all five forks, every upgrade boundary crossed
 		{"minimal@n,n,n,n", 32, 10}, // published minimal preset, phase0 only
+		{"fast@0,0,1,2+edge", 32, 24}, // payload fields at their limits (extra_data 0/31/32 bytes, blob lists at the limit)
+		{"apart:" + strconv.FormatInt(o.Seed, 10), 32, 44}, // all per-fork constants and per-block limits pairwise different
 	}
 	if o.Thorough() {
 		plans = append(plans, plan{"fast@0,1,2,3", 64, 40}, plan{"fast@0,0,0,0", 32, 24}, plan{"rand:" + strconv.FormatInt(o.Seed, 10), 32, 24},
